@@ -262,6 +262,9 @@ def gen_api_spec(seed, index, nhs, tier):
                 heap[str(ci)] = rh.randrange(1, 400)
         spec['heap'] = heap
         spec['heap_seed'] = rh.getrandbits(32)
+    rc = seeds.rng(seed, 'api', index, 'clock')
+    # simulated clock: every run has one; a third of the runs inject stalls (seconds to minutes) at clock reads
+    spec['clock'] = {'seed': rc.getrandbits(48), 'stall_p': rc.choice([0.0, 0.0, 0.02, 0.2])}
     ref_hs = fam['ref_hs_draw'] % nhs
     hs = (ref_hs + 1 + rz.randrange(nhs - 1)) % nhs if nhs > 1 else ref_hs
     meta['threaded'] = threaded
